@@ -6,6 +6,7 @@ mod hooks;
 mod json;
 mod mmio;
 mod mtransport;
+mod pcidev;
 mod props;
 mod rng;
 mod runner;
